@@ -86,6 +86,85 @@ fn run_case(line: &str, base: u64) -> String {
     format!("{} ; {} ; {}", trace.join(" "), rs.join("|"), if out.all_finished { 1 } else { 0 })
 }
 
+
+// Free-running stress (no scheduler): installers keep calling set() on one cell while emitters
+// load; judged by the property itself.  Prints `stress ok ...` or `stress FAIL <what>`.
+fn stress(installers: usize, emitters: usize, iters: usize, base: u64) -> String {
+    use std::sync::atomic::{AtomicBool, AtomicU64, Ordering::SeqCst};
+    metrics::__verif::set_callback(None);
+    let cell: &'static metrics::__VerifRecorderOnceCell = Box::leak(Box::new(metrics::__VerifRecorderOnceCell::new()));
+    let oks = Arc::new(AtomicU64::new(0));
+    let winner = Arc::new(AtomicU64::new(0));
+    let bad: Arc<Mutex<Vec<String>>> = Arc::new(Mutex::new(Vec::new()));
+    let stop = Arc::new(AtomicBool::new(false));
+    let mut hs = Vec::new();
+    for t in 0..installers {
+        let (oks, winner, bad) = (oks.clone(), winner.clone(), bad.clone());
+        hs.push(std::thread::spawn(move || {
+            for i in 0..iters {
+                let r = base + 1 + (t * iters + i) as u64;
+                match cell.set(Dbl::new(r)) {
+                    Ok(()) => { oks.fetch_add(1, SeqCst); winner.store(r, SeqCst); }
+                    Err(e) => {
+                        let d = e.into_inner();
+                        if d.id != r || drops(r) != 0 || !d.fields.iter().all(|f| *f == r) {
+                            bad.lock().unwrap().push(format!("set({}) handed back recorder {} (drops {})", r, d.id, drops(r)));
+                        }
+                    }
+                }
+            }
+        }));
+    }
+    let loads = Arc::new(AtomicU64::new(0));
+    for _ in 0..emitters {
+        let (bad, stop, loads) = (bad.clone(), stop.clone(), loads.clone());
+        hs.push(std::thread::spawn(move || {
+            let mut seen: Option<u64> = None;
+            let mut n = 0u64;
+            while !stop.load(SeqCst) || n < 1000 {
+                n += 1;
+                let got = match cell.try_load() {
+                    None => None,
+                    Some(rec) => {
+                        LAST.with(|l| l.set(0));
+                        rec.describe_counter(KeyName::from_const_str("x"), None, SharedString::const_str(""));
+                        Some(LAST.with(|l| l.get()))
+                    }
+                };
+                match (seen, got) {
+                    (Some(a), None) => { bad.lock().unwrap().push(format!("emission went to the no-op recorder after an earlier one reached recorder {}", a)); break; }
+                    (Some(a), Some(b)) if a != b => { bad.lock().unwrap().push(format!("emissions reached two recorders {} and {}", a, b)); break; }
+                    (_, Some(u64::MAX)) => { bad.lock().unwrap().push("torn recorder observed".into()); break; }
+                    (None, Some(b)) => seen = Some(b),
+                    _ => {}
+                }
+                if n > 50_000_000 { break; }
+            }
+            loads.fetch_add(n, SeqCst);
+        }));
+    }
+    let n_inst = installers;
+    for (i, h) in hs.into_iter().enumerate() {
+        if i + 1 == n_inst { /* all installers joined after this one */ }
+        if i < n_inst { let _ = h.join(); if i + 1 == n_inst { stop.store(true, SeqCst); } } else { let _ = h.join(); }
+    }
+    let w = winner.load(SeqCst);
+    let mut bad = bad.lock().unwrap().clone();
+    if oks.load(SeqCst) != 1 { bad.push(format!("{} set() calls returned Ok", oks.load(SeqCst))); }
+    if drops(w) != 0 { bad.push("installed recorder was dropped".into()); }
+    match cell.try_load() {
+        None => bad.push("after all installers finished a load returns None".into()),
+        Some(rec) => {
+            LAST.with(|l| l.set(0));
+            rec.describe_counter(KeyName::from_const_str("x"), None, SharedString::const_str(""));
+            let id = LAST.with(|l| l.get());
+            if id != w { bad.push(format!("final load reached recorder {} but the winner is {}", id, w)); }
+        }
+    }
+    if bad.is_empty() { format!("stress ok sets={} loads={}", installers * iters, loads.load(SeqCst)) }
+    else { bad.truncate(3); format!("stress FAIL {}", bad.join(" | ")) }
+}
+
 fn main() {
     let stdin = std::io::stdin();
     let stdout = std::io::stdout();
@@ -94,6 +173,12 @@ fn main() {
     for line in stdin.lock().lines() {
         let line = line.unwrap();
         if line.trim().is_empty() { continue; }
+        if let Some(rest) = line.trim().strip_prefix("STRESS") {
+            let v: Vec<usize> = rest.split_whitespace().map(|x| x.parse().unwrap()).collect();
+            writeln!(w, "{}", stress(v[0], v[1], v[2], base)).unwrap();
+            base += 1 << 32;
+            continue;
+        }
         writeln!(w, "{}", run_case(&line, base)).unwrap();
         base += 1 << 20;
     }
